@@ -431,6 +431,15 @@ func c09(c *Ctx) {
 						})
 						w := core.InstrGuarded(sel, g, nil)
 						r.Check(w == nil, "R4.enqueue", name+" count-gate", p.Pos(sel.Pos()), "enqueue only under len(keys) == len(contents)", "a stream with a different item count can be paired with the keys and enqueued: "+p.PathString(w))
+						// the decoder must consume the whole stream, otherwise surplus items are silently cut off and the count gate is vacuous
+						if ex, ok := contV.(*ssa.Extract); ok {
+							if cc, ok := ex.Tuple.(*ssa.Call); ok {
+								if df := core.StaticCalleeFn(cc); df != nil {
+									okDrain, why := multiDecoderDrains(p, df)
+									r.Check(okDrain, "R4.enqueue", name+" decoder-consumes-whole-stream", p.Pos(cc.Pos()), "the contents compared with the keys are ALL items of the stream", "the stream decoder can stop before the end of the stream, so a stream with more items than keys passes the count gate and its first items are paired with the accepted keys: "+why)
+								}
+							}
+						}
 						// decode error gate
 						if ex, ok := contV.(*ssa.Extract); ok {
 							if cc, ok := ex.Tuple.(*ssa.Call); ok {
